@@ -159,8 +159,14 @@ def literal_list_in(file, func, pred):
 
 def tables():
     # truthy strings: the list literal in cast_str_to_bool's `in [...]`
-    n = literal_list_in('pypyr/utils/types.py', 'cast_str_to_bool', lambda x: isinstance(x, ast.List))
-    truthy = [e.value for e in n.elts]
+    # (informational since harness/translate.py translates cast_str_to_bool itself and
+    #  Props/Translated_C04.lean proves it equal to the model: any literal collection will do, in any order)
+    try:
+        n = literal_list_in('pypyr/utils/types.py', 'cast_str_to_bool',
+                            lambda x: isinstance(x, (ast.List, ast.Tuple, ast.Set)))
+        truthy = sorted(e.value for e in n.elts if isinstance(e, ast.Constant) and isinstance(e.value, str))
+    except LookupError:
+        truthy = []
     # built-in back-offs: keys of builtin_backoffs dict literal
     tree = ast.parse((repo() / 'pypyr/retries.py').read_text())
     backoffs = []
